@@ -66,7 +66,13 @@ def r15a(P, R):
 
 
 def r15b(P, R):
-    at = P.fn(IN + "as_type")
+    at0 = P.fn(IN + "as_type")
+    # the converter may delegate to helpers of its own module: analyse the function (reachable from as_type, in this module) that
+    # actually tests the kind literals
+    cands = [P.fns[p] for p in P.reachable([at0]) if p.startswith(IN) and not P.fns[p].derived]
+    cands = [f for f in cands if "NON_NULL" in {x.get("v") for x in f.walk() if x.get("lk") == "str" and x.get("k") in ("Lit", "PatExpr")}]
+    at = cands[0] if cands else at0
+    rec_set = {f.path for f in cands} | {at0.path}
     lits = set(x.get("v") for x in at.walk() if x.get("lk") == "str" and x.get("k") in ("Lit", "PatExpr"))
     R.check("R15-b", "kinds:as_type", set(KINDS) | {"LIST", "NON_NULL"} <= lits, "all __TypeKind values handled",
             "as_type does not handle __TypeKind %s" % sorted((set(KINDS) | {"LIST", "NON_NULL"}) - lits), loc=at.loc())
@@ -76,11 +82,23 @@ def r15b(P, R):
         ok = False
         for i in ifs:
             made = [norm(x.get("def", "")) for x in subnodes(i["then"]) if x.get("k") == "Path" and x.get("dk", "").startswith("Ctor")]
-            rec = any(call_name(x) == at.path for x in subnodes(i["then"]) if x.get("k") == "Call")
+            rec = any(call_name(x) in rec_set for x in subnodes(i["then"]) if x.get("k") == "Call")
             of = has_field(pv.atoms(i["then"]), IN + "IntrospectionType", "of_type")
             if any(m.endswith(ctor) for m in made) and rec and of:
                 ok = True
         R.check("R15-b", "wrapper:" + wrapper, ok, "%s unwraps ofType into %s" % (wrapper, ctor), "as_type does not map %s to %s over ofType" % (wrapper, ctor), loc=at.loc())
+    # type references nest arbitrarily deep (`[[[Float!]!]!]!`): no failure of the reference converter may depend on a counter
+    for f in [P.fns[p] for p in sorted(rec_set)]:
+        fpv = Prov(f)
+        counters = {fpv.params.get(p.get("local")) for p, t in zip(f.params, f.sig_inputs) if p.get("k") == "Binding" and t in ("usize", "u8", "u16", "u32", "u64", "isize", "i32", "i64")}
+        bad = []
+        for i in f.walk():
+            if i.get("k") == "If" and any(x.get("k") == "Ret" or (call_name(x) or "").endswith("Result::Err") for x in subnodes(i["then"])):
+                if any(a[0] == "param" and a[1] in counters for a in fpv.atoms(i["cond"])):
+                    bad.append(i["s"][0])
+        R.check("R15-b", "no-depth-limit:" + f.name, not bad, "no failure depends on a nesting counter",
+                "%s fails when a counter parameter (%s) crosses a bound (line %s): a type reference nested deeper than that is rejected on the "
+                "JSON route (or its field's arguments are silently dropped) while the SDL route accepts it" % (f.path, sorted(counters), bad), loc=f.loc())
     ad = P.fn(IN + "as_type_definition")
     for kind, variant in sorted(KINDS.items()):
         ifs = [i for i in ad.walk() if i.get("k") == "If" and i["cond"].get("k") == "Binary" and lit_value(i["cond"]["r"]) == kind]
@@ -180,6 +198,36 @@ def r15d(P, R):
             arm = tab.get(op)
             calls = [x["method"] for x in subnodes(arm["body"]) if x.get("k") == "MethodCall"] if arm else []
             R.check("R15-d", "root:from_ast:" + op, "set_" + fld in calls, "%s -> set_%s" % (op, fld), "%s root is stored through %s" % (op, calls), loc=g.loc())
+    # roots accumulate: SchemaBuilder::set_root_types is get-or-create, or else it is called once per schema definition (not per root)
+    sb = P.fn("graphql_type_system::builder::SchemaBuilder::set_root_types")
+    writes = []
+    for i, (x, _) in enumerate(sb.nodes()):
+        w = None
+        if x.get("k") == "Assign" and x["l"].get("k") == "Field" and x["l"]["field"] == "root_types":
+            w = "assignment"
+        elif x.get("k") == "MethodCall" and x["method"] in ("insert", "replace", "take") and any(y.get("k") == "Field" and y.get("field") == "root_types" for y in subnodes(x["recv"])):
+            w = x["method"]
+        if w:
+            guarded = False
+            for c in enclosing_contexts(sb, i):
+                if c[0] == "arm" and c[1] is not None and "None" in arm_variants({"arms": [c[2]]})[0]:
+                    guarded = True
+                if c[0] in ("if-then", "if-else") and any(y.get("k") == "MethodCall" and y["method"] in ("is_none", "is_some") for y in subnodes(c[1]["cond"])):
+                    guarded = True
+            writes.append((w, guarded))
+    replacing = [w for w, gd in writes if not gd]
+    callers = []
+    for f in P.fns.values():
+        if f.derived or "::tests" in f.path:
+            continue
+        for i, (x, _) in enumerate(f.nodes()):
+            if x.get("k") == "MethodCall" and (call_name(x) or "") == sb.path:
+                callers.append((f, any(c[0] in ("loop", "closure") for c in enclosing_contexts(f, i))))
+    R.floor("R15-d", "set_root_types call sites", len(callers), 2)
+    in_loop = [short(f.path) for f, l in callers if l]
+    R.check("R15-d", "roots-accumulate", not (replacing and in_loop), "root types set one by one end up in the same RootTypes node",
+            "set_root_types replaces the RootTypes node on every call (%s) and %s calls it once per root inside a loop: of `schema { query: Q "
+            "mutation: M }` only the last root survives on the SDL route" % (replacing, in_loop), loc=sb.loc())
     h = P.fn(IN + "introspection")
     pvh = Prov(h)
     for op, fld in OPS.items():
